@@ -77,6 +77,19 @@ def handleLine (line : String) : String :=
         let r := run { noTerminate := nt, closeWakes := cw } m prog { now := now, handler := h, timer := timer, closed := closed }
         s!"fin={optStr r.fin "inf"} out={outStr r.out} closed={if r.closed then 1 else 0} handler={handlerStr r.handler} timer={optStr r.timer "-"} acts={actsStr r.acts}"
     | _, _, _, _, _, _, _ => "bad-op"
+  | "race" :: nt :: h :: timer :: now :: t :: name :: prog =>
+    -- the wrapper around `prog` with the alarm delivered inside its finally (Scrapli.Timeout.wrapSRaced)
+    match bit nt, parseHandler h, now.toNat?, t.toNat?, parseProg prog with
+    | some nt, some h, some now, some t, some (prog, []) =>
+      let timer : Option (Option Nat) := if timer == "-" then some none else timer.toNat?.map some
+      match timer with
+      | none => "bad-op"
+      | some timer =>
+        let cfg : Cfg := { noTerminate := nt }
+        match wrapSRaced cfg Scrapli.Gen.Timeout.epilogueGuarded t name (runS cfg prog) { now := now, handler := h, timer := timer } with
+        | some (q, o) => s!"fin={q.now} out={outStr o} closed={if q.closed then 1 else 0} handler={handlerStr q.handler} timer={optStr q.timer "-"} acts=."
+        | none => "fin=inf out=error closed=0 handler=- timer=- acts=."
+    | _, _, _, _, _ => "bad-op"
   | _ => "bad-op"
 
 partial def loop (h : IO.FS.Stream) : IO Unit := do
